@@ -28,9 +28,34 @@ def half(x):
     return round(x * 2) / 2.0
 
 
-def make_dataset(ds_seed, nq, nlab=200):
+def add_twodel_queries(ds, rng, k):
+    """molecules made of three nearby regions of one reference (two deletions): the first pass aligns the large middle region, the second
+    pass both flanks (two fragments carrying the same molecule id)"""
+    qid = max(q[0] for q in ds['queries']) + 11 if ds['queries'] else 1
+    for _ in range(k):
+        rid, rl, rp = rng.choice(ds['refs'])
+        n1, n2, n3 = rng.randint(9, 11), rng.randint(20, 24), rng.randint(9, 11)
+        s1, s2 = rng.randint(3, 6), rng.randint(3, 6)
+        a = rng.randint(2, len(rp) - (n1 + n2 + n3 + s1 + s2) - 3)
+        w1 = rp[a:a + n1]; b = a + n1 + s1; w2 = rp[b:b + n2]; c = b + n2 + s2; w3 = rp[c:c + n3]
+        q = [p - w1[0] for p in w1]
+        q += [q[-1] + 3000 + (p - w2[0]) for p in w2]
+        q += [q[-1] + 3000 + (p - w3[0]) for p in w3]
+        rev = rng.random() < 0.5
+        if rev:
+            q = [q[-1] - p for p in q[::-1]]
+        q = [round(p + rng.choice([0, 20.0]), 1) for p in q]
+        ds['queries'].append((qid, q[-1] + 500.0, q))
+        ds['truth'][qid] = dict(kind='twodel', ref=rid, start=a, n=n1 + n2 + n3, rev=rev)
+        qid += 3
+    return ds
+
+
+def make_dataset(ds_seed, nq, nlab=200, twodel=0):
     rng = random.Random(ds_seed)
     ds = e2e.gen_mixed(rng, nref=2, nlab=nlab, nq=nq)
+    if twodel:
+        add_twodel_queries(ds, random.Random(ds_seed + 1), twodel)
     # coordinates on the 0.5 grid so that every float operation of the implementation is exact (see DESIGN.md section 3)
     ds['refs'] = [(i, half(l), [half(p) for p in ps]) for i, l, ps in ds['refs']]
     ds['queries'] = [(i, half(l), sorted(set(half(p) for p in ps))) for i, l, ps in ds['queries']]
